@@ -780,6 +780,7 @@ class CycleMon(Monitor):
         n = dev.name
         with ctx.notrace():
             ctx.require(self.busy[n] is None and dev._output is None, 'device accepted a part while holding another', n)
+            self.done[n].discard(id(part))      # a new visit of the same part (re-entrant flow) may finish again
             # the one-shot offset is what the harness applied since this device's previous acceptance
             off = self.pending_offset.get(n, 0)
             self.pending_offset[n] = 0
